@@ -378,3 +378,37 @@ Corollary combine_greets_sync_sig p n :
   1 <= n -> greets_sync_sig (combine_op n, p, g_std).
 Proof. intros H1 H2 H3 H4 H5 Hn c. now apply combine_greets_sync. Qed.
 Print Assumptions combine_greets_sync_sig.
+
+(** ** Sanity: the hypotheses are met by real runs.  With two members, after member 0 greeted
+    inside its subscribing call, combine is subscribed, has not greeted, and is still inside
+    the subscribing activation; merge has already greeted its sink. *)
+Definition p_sync : mparams :=
+  {| nsinks := 1; late_ok := false; pullable := false; one_pull := false;
+     resub := false; no_nest := false; c14 := false |}.
+
+Example combine_waiting :
+  let sc := [MIn (ISub 0 0); MIn (IDn 0 DH)] in
+  let c := run p_sync (combine_op 2) sc in
+  (all_enabled p_sync g_std (cfg0 (combine_op 2)) sc,
+   subd (ms c) 0, sk (ms c) 0, map snd (stack c), enabled p_sync g_std c MRet) =
+  (true, true, SNone, [CSub 0], true).
+Proof. vm_compute. reflexivity. Qed.
+
+Example merge_greeted :
+  let sc := [MIn (ISub 0 0); MIn (IDn 0 DH)] in
+  let c := run p_sync (merge_op 2) sc in
+  (all_enabled p_sync g_std (cfg0 (merge_op 2)) sc, subd (ms c) 0, sk (ms c) 0) =
+  (true, true, SLive).
+Proof. vm_compute. reflexivity. Qed.
+
+(** the subscribing call of a member that has not greeted cannot return *)
+Example merge_no_late_return :
+  let c := run p_sync (merge_op 2) [MIn (ISub 0 0)] in
+  (subd (ms c) 0, sk (ms c) 0, map snd (stack c), enabled p_sync g_std c MRet) =
+  (true, SNone, [CSub 0], false).
+Proof. vm_compute. reflexivity. Qed.
+
+Example concat_zero_greets :
+  let c := run p_sync (concat_op 0) [MIn (ISub 0 0)] in
+  (subd (ms c) 0, sk (ms c) 0, map snd (stack c)) = (true, SLive, [CDn 0 DH]).
+Proof. vm_compute. reflexivity. Qed.
